@@ -69,7 +69,7 @@ class Recorder:
         except BaseException as e:
             self.events.append({"call": name, "f": role, "raised": type(e).__name__, "bytes": self.db_bytes(), "info": info or {}})
             raise
-        ev = {"call": name, "f": role, "bytes": self.db_bytes(), "info": info or {}}
+        ev = {"call": name, "f": role, "bytes": self.db_bytes(), "info": info or {}, "counted": counted}
         self.events.append(ev)
         if inject and self.fault_after:
             ev["fault"] = 2
